@@ -58,6 +58,37 @@ PROPS = {
         "modelled": COMMON_MODELLED,
         "assumptions": ["Marshal-into is covered through Push (C16 check exercises Marshal into initialised receivers)"],
     },
+    "C09": {
+        "lean": ["Stackage.Props.C09"],
+        "streams": [{"name": "frozen", "quick": 4000, "thorough": 80000}],
+        "rule": "every exported method of Stack and Condition, enumerated by reflection (a method whose parameter types the sweep does not know makes it refuse to run), "
+                "invoked with arguments generated from its parameter types (ints incl. MinInt/MaxInt, strings, tri-state booleans, values incl. stacks / conditions / awkward "
+                "values, errors, operators, closures, auxiliary maps) singly and in sequences of 1-4 on read-only instances of every kind and content (nested trees, capacity, "
+                "mutex); the deep dump (VerifDump of the instance and of every nested Stack / Condition: content, every config field, closure / logger / aux identities) is "
+                "compared before and after every call; Free must report an error; finally SetReadOnly(false) must give back exactly the initial state and Push must work again",
+        "modelled": COMMON_MODELLED + ["method bodies inside the guards are arbitrary in the skeleton theorems; the guards themselves are tied to the source by the regenerated facts"],
+        "assumptions": ["SetID(\"_random\") is not generated (non-deterministic); it is behind the same guard as SetID(fixed)"],
+    },
+    "C11": {
+        "lean": ["Stackage.Props.C11"],
+        "streams": [{"name": "queries", "quick": 4000, "thorough": 80000}],
+        "rule": "every exported method not on the declared mutator list (enumerated by reflection) x random trees and configurations (mutex-enabled and read-only ones included): "
+                "deep dump before / after / after a repetition, same answer when repeated, tampering with the Unmarshal slice; plus (both tiers) all queries from 16 goroutines in "
+                "parallel under the race detector, each answer compared with the sequential one",
+        "modelled": COMMON_MODELLED,
+        "assumptions": ["user closures are pure", "race-freedom is a runtime fact: the race detector run is supporting evidence, the proof covers write-freedom of the query call graph (partial, DESIGN §8)"],
+        "level_text": "proof (partial): Lean theorems over the guard skeleton + decide-checked facts regenerated from the source (no query reaches a write or a lock); data-race freedom "
+                      "itself is not expressible in the model and is supported by a -race run of all queries from 16 goroutines",
+    },
+    "C17": {
+        "lean": ["Stackage.Props.C17"],
+        "streams": [{"name": "inert", "quick": 4000, "thorough": 80000}],
+        "rule": "every exported method of Stack and Condition (reflection) x generated arguments x receiver states {zero value, freed}; the result must be the zero result of the "
+                "Lean table and the receiver must stay uninitialised; sequences of 1-4 calls",
+        "modelled": COMMON_MODELLED,
+        "assumptions": ["the documented sentinels (ID \"unspecified\", Kind \"<invalid_stack>\", Addr \"0x0\", IsEmpty/IsPadded/IsZero true) are pinned as zero results",
+                        "package-level functions and Auxiliary methods are exercised by the C08 / C18 streams"],
+    },
     "C12": {
         "lean": ["Stackage.Props.C12"],
         "streams": [{"name": "alias", "quick": 3000, "thorough": 60000}],
@@ -229,6 +260,27 @@ def projection(pid, stream):
     return PROJ.get(pid, lambda s: s)
 
 
+def extra_checks(run):
+    """property-specific steps beyond the case streams: returns [(name, detail, replay_text)] for violations"""
+    import subprocess, os
+    out = []
+    if run.pid == "C11" and run.harness:
+        root = os.path.dirname(os.path.dirname(os.path.abspath(__file__)))
+        exe = os.path.join(run.work, "harness-race")
+        env = dict(os.environ, GOFLAGS="-mod=mod", GOPROXY="off", GOSUMDB="off", GOTOOLCHAIN="local")
+        b = subprocess.run(["go", "build", "-race", "-modfile", os.path.join(run.work, "go.mod"), "-tags", "verif", "-o", exe, "."],
+                           cwd=os.path.join(root, "harness"), env=env, stdout=subprocess.PIPE, stderr=subprocess.STDOUT, text=True)
+        if b.returncode != 0:
+            run.notes.append("race build failed: " + b.stdout[-200:])
+            return out
+        n = "300" if run.tier == "quick" else "5000"
+        r = subprocess.run([exe, "parq", "-seed", str(run.seed), "-n", n], stdout=subprocess.PIPE, stderr=subprocess.PIPE, text=True, timeout=3000)
+        run.notes.append("parallel queries: " + (r.stdout.strip().split("\n") or [""])[-1])
+        if "DATA RACE" in r.stderr or r.returncode != 0:
+            out.append(("race", "data race or wrong answer while running queries from 16 goroutines", r.stdout[-3000:] + "\n" + r.stderr[-6000:]))
+    return out
+
+
 def in_scope(pid, stream, tags):
     if pid == "C01":
         return "oos" not in tags.split()
@@ -248,6 +300,8 @@ def nontrivial(pid, payload):
         return payload.count(" ") >= 6
     if pid == "C18":
         return " | " in payload and len(ops) >= 2
+    if pid in ("C09", "C11", "C17"):
+        return True
     if pid in ("C04", "C16"):
         return payload.count("[") >= 2
     if pid in ("C13", "C14", "C06"):
